@@ -585,3 +585,66 @@ func orphanRaw(dir string) (string, error) {
 	}
 	return "oraw(o=" + strings.Join(os, ",") + ";b=" + strings.Join(bs, ",") + ";r=" + strings.Join(rs, ",") + ")", nil
 }
+
+// leafRaw renders the leaf side of the change-log database (changelog.sqlite): the keys of the
+// leaf rows (version.sequence), the leaf_delete rows (version.sequence:hexkey) and the leaf_orphan
+// rows (version.sequence@at): lfraw(l=..;d=..;o=..), each part sorted by (version, sequence).
+func leafRaw(dir string) (string, error) {
+	conn, err := sqlite3.Open("file:" + filepath.Join(dir, "changelog.sqlite") + "?mode=ro")
+	if err != nil {
+		return "", err
+	}
+	defer conn.Close()
+	query := func(sql string, f func(*sqlite3.Stmt) error) error {
+		q, err := conn.Prepare(sql)
+		if err != nil {
+			return err
+		}
+		defer q.Close()
+		for {
+			ok, err := q.Step()
+			if err != nil {
+				return err
+			}
+			if !ok {
+				return nil
+			}
+			if err := f(q); err != nil {
+				return err
+			}
+		}
+	}
+	var ls, ds, os []string
+	if err := query("SELECT version, sequence FROM leaf ORDER BY version, sequence", func(q *sqlite3.Stmt) error {
+		var v, sq int64
+		if err := q.Scan(&v, &sq); err != nil {
+			return err
+		}
+		ls = append(ls, fmt.Sprintf("%d.%d", v, sq))
+		return nil
+	}); err != nil {
+		return "", err
+	}
+	if err := query("SELECT version, sequence, key FROM leaf_delete ORDER BY version, sequence", func(q *sqlite3.Stmt) error {
+		var v, sq int64
+		var k []byte
+		if err := q.Scan(&v, &sq, &k); err != nil {
+			return err
+		}
+		ds = append(ds, fmt.Sprintf("%d.%d:%x", v, sq, k))
+		return nil
+	}); err != nil {
+		return "", err
+	}
+	if err := query("SELECT version, sequence, at FROM leaf_orphan ORDER BY version, sequence, at", func(q *sqlite3.Stmt) error {
+		var v, sq, at int64
+		if err := q.Scan(&v, &sq, &at); err != nil {
+			return err
+		}
+		os = append(os, fmt.Sprintf("%d.%d@%d", v, sq, at))
+		return nil
+	}); err != nil {
+		return "", err
+	}
+	return "lfraw(l=" + strings.Join(ls, ",") + ";d=" + strings.Join(ds, ",") + ";o=" + strings.Join(os, ",") + ")", nil
+}
